@@ -14,6 +14,7 @@ import (
 	"time"
 
 	"connectrpc.com/conformance/internal"
+	"connectrpc.com/conformance/internal/app/grpcserver"
 	"connectrpc.com/conformance/internal/app/referenceserver"
 	conformancev1 "connectrpc.com/conformance/internal/gen/proto/go/connectrpc/conformance/v1"
 )
@@ -31,8 +32,23 @@ type Server struct {
 	cond  *sync.Cond
 }
 
+// RunFunc is the shape of the peers' exported entry points.
+type RunFunc func(ctx context.Context, args []string, in io.ReadCloser, out, errOut io.WriteCloser) error
+
 // Start starts a reference server (reference mode) for the given request.
 func Start(req *conformancev1.ServerCompatRequest) (*Server, error) {
+	return StartWith(func(ctx context.Context, args []string, in io.ReadCloser, out, errOut io.WriteCloser) error {
+		return referenceserver.RunInReferenceMode(ctx, args, in, out, errOut, nil)
+	}, req)
+}
+
+// StartGRPC starts the grpc-go reference server (the runner's second kind of in-process server).
+func StartGRPC(req *conformancev1.ServerCompatRequest) (*Server, error) {
+	return StartWith(grpcserver.Run, req)
+}
+
+// StartWith starts the given server entry point for the request.
+func StartWith(run RunFunc, req *conformancev1.ServerCompatRequest) (*Server, error) {
 	ctx, cancel := context.WithCancel(context.Background())
 	inR, inW := io.Pipe()
 	outR, outW := io.Pipe()
@@ -50,7 +66,7 @@ func Start(req *conformancev1.ServerCompatRequest) (*Server, error) {
 		}
 	}()
 	go func() {
-		err := referenceserver.RunInReferenceMode(ctx, []string{"reference-server", "-port", "0", "-bind", "127.0.0.1"}, inR, outW, errW, nil)
+		err := run(ctx, []string{"reference-server", "-port", "0", "-bind", "127.0.0.1"}, inR, outW, errW)
 		_ = outW.CloseWithError(io.EOF)
 		_ = errW.Close()
 		s.done <- err
@@ -83,6 +99,11 @@ type cachedServer struct {
 // thousands of times that exhausts the descriptor limit, so the server is replaced
 // (and the old one stopped, which closes its connections) after maxUses calls.
 func Cached(key string, req *conformancev1.ServerCompatRequest, maxUses int) (*Server, error) {
+	return CachedWith(key, Start, req, maxUses)
+}
+
+// CachedWith is Cached for another kind of server (StartGRPC).
+func CachedWith(key string, start func(*conformancev1.ServerCompatRequest) (*Server, error), req *conformancev1.ServerCompatRequest, maxUses int) (*Server, error) {
 	cacheMu.Lock()
 	defer cacheMu.Unlock()
 	if c, ok := cache[key]; ok {
@@ -94,7 +115,7 @@ func Cached(key string, req *conformancev1.ServerCompatRequest, maxUses int) (*S
 		old := c.s
 		go old.Stop()
 	}
-	s, err := Start(req)
+	s, err := start(req)
 	if err != nil {
 		return nil, err
 	}
